@@ -5,25 +5,79 @@ assumed (clause-level slicing, DESIGN section 3).
 """
 
 TS = 'labtech.lab:TaskState'
+TC = 'labtech.lab:TaskCoordinator'
+LAB = 'labtech.lab:Lab'
 SR = 'labtech.runners.serial:SerialRunner'
 PR = 'labtech.runners.process:ProcessRunner'
+SP = 'labtech.runners.process:SpawnProcessRunner'
+FK = 'labtech.runners.process:ForkProcessRunner'
 PE = 'labtech.runners.process:ProcessExecutor'
+FU = 'labtech.runners.process:Future'
+PM = 'labtech.runners.process'
 
 COMMON_ASSUMPTIONS = [
-    'A-sem: the Python semantics PyVC encodes for its fragment (evaluation order, exceptions, dict/set behaviour); cross-checked against CPython by the native replays, not proved',
-    'A-own: collection fields are not aliased or mutated from outside their class (checked syntactically for the classes under contract)',
+    'A-sem: the Python semantics PyVC encodes for its fragment (evaluation order, exceptions, generators, dict/set behaviour); cross-checked against CPython by the native replays and seeded changes, not proved',
+    'A-own: collection fields are not aliased or mutated from outside their class (locals aliasing a heap collection are tracked; other aliasing leaves the fragment)',
     'A-display: dropped logging/progress/monitor statements do not raise, block or touch tracked state',
     'solver: z3 unsat answers are trusted; finite-scope sat answers are replayed natively before being reported',
+    'termination of the verified functions is not proved (only the C11 measure/no-stuck/exit lemmas)',
 ]
 
+SCHED = [f'{TS}.__init__', f'{TS}.process_tasks', f'{TS}.insert_task', f'{TS}.start_task', f'{TS}.complete_task',
+         f'{TS}.get_ready_tasks', f'{TC}.run', f'{TC}.handle_failure', f'{LAB}.run_tasks']
+SERIAL = [f'{SR}.submit_task', f'{SR}.wait', f'{SR}.cancel', f'{SR}.stop', f'{SR}.pending_task_count', f'{SR}.get_result',
+          f'{SR}.remove_results']
+PROC = [f'{PR}.submit_task', f'{PR}.wait', f'{PR}.cancel', f'{PR}.stop', f'{PR}.pending_task_count', f'{PR}.get_result',
+        f'{PR}.remove_results', f'{SP}._submit_task', f'{FK}._submit_task', f'{PM}:_subprocess_target']
+EXEC = [f'{PE}._start_processes', f'{PE}.submit', f'{PE}.cancel', f'{PE}.stop', f'{PE}._consume_result_queue', f'{PE}.wait',
+        f'{PM}:split_done_futures', f'{FU}.done', f'{FU}.cancelled', f'{FU}.set_result', f'{FU}.set_exception', f'{FU}.cancel',
+        f'{FU}.result']
+
+A_RUN = 'A-run: user run()/filter_context()/post_init() are deterministic functions of the task fields, the context and the direct dependencies\' results, and terminate'
+A_PROC = 'A-proc (trusted multiprocessing model): a started process runs its thunk once; a future that finished without exception carries what the child function returned for that task; Manager().Queue delivers what was put'
+A_CACHE = 'A-cache0/A-atomic: entries present at call start were written by save for the task whose key they carry; only a task\'s own execution writes its key; is_cached(t) is stable between plan time and submit time for a task not yet executed'
+A_GDD = 'get_direct_dependencies is used through its contract (sound, complete by value, complete by instance); its body is verified against the value-tree spec in the C15/C02 value cone'
+
 PROPS = {
-    'C17': dict(
-        functions=[f'{TS}.complete_task', f'{SR}.remove_results', f'{PR}.remove_results'],
-        lemmas=[],
-        replay='replay.c17',
-        assumptions=[
-            'sets iterate in an arbitrary order (every order is covered by the ghost `done` encoding)',
-        ],
-        design_ref='7/C17',
-    ),
+    'C01': dict(functions=SCHED + SERIAL + PROC, lemmas=[], replay='replay.c01', standin='replay.explore',
+                assumptions=[A_RUN, A_PROC, A_CACHE, A_GDD,
+                             'tasks equal under == have equal cache keys (A-eq; false across 1/True/1.0 parameters)'],
+                design_ref='7/C01'),
+    'C02': dict(functions=SCHED + [f'{SR}.submit_task', f'{SR}.wait', f'{PR}.submit_task', f'{PR}.wait', f'{SP}._submit_task', f'{FK}._submit_task'],
+                lemmas=[], replay='replay.c02', standin='replay.explore',
+                assumptions=[A_RUN, A_PROC, A_GDD, '"start" is the submit event plus the executor\'s process start; the child cannot observe anything later than the fork/spawn snapshot'],
+                design_ref='7/C02'),
+    'C03': dict(functions=SCHED + [f'{SR}.submit_task', f'{PR}.submit_task'], lemmas=[], replay='replay.c03', standin='replay.explore',
+                assumptions=[A_CACHE, A_GDD], design_ref='7/C03'),
+    'C04': dict(functions=[f'{TS}.get_ready_tasks', f'{TS}.start_task', f'{TS}.complete_task', f'{TC}.run'] + EXEC,
+                lemmas=[], replay='replay.c04', standin='replay.explore',
+                assumptions=['A-limits: max_parallel is None or >= 1; max_workers >= 1; os.cpu_count() is an int',
+                             '"executing" is over-approximated by "registered as running"/"active", so the bound is conservative',
+                             'serial backend: SerialRunner.wait runs at most one submission per call, synchronously (no thread/process is created in serial.py)'],
+                design_ref='7/C04'),
+    'C05': dict(functions=[f'{TS}.get_ready_tasks', f'{TS}.start_task', f'{TC}.run', f'{PE}._start_processes', f'{PE}.submit',
+                           f'{PE}.wait', f'{PE}._consume_result_queue', f'{PM}:split_done_futures'],
+                lemmas=[], replay='replay.c05', standin='replay.explore',
+                assumptions=['A-limits', 'resting points are the calls of Runner.wait; OS scheduling latency between Process.start() and the child running is not modelled'],
+                design_ref='7/C05'),
+    'C10': dict(functions=SCHED + [f'{SR}.wait', f'{PR}.wait', f'{SP}._submit_task', f'{PM}:_subprocess_target', f'{PE}._consume_result_queue'],
+                lemmas=[], replay='replay.c10', standin='replay.explore',
+                assumptions=[A_PROC, 'that the normal exit is reached is C11'], design_ref='7/C10'),
+    'C11': dict(functions=SCHED + SERIAL + [f'{PR}.submit_task', f'{PR}.wait', f'{PR}.pending_task_count'] + EXEC,
+                lemmas=['C11/no-stuck', 'C11/exit', 'C11/measure'], replay='replay.c11', standin='replay.explore',
+                assumptions=['A-wo: well-ordering of the naturals (one instance, hypothesis of lemma C11/no-stuck)',
+                             'LIVENESS ASSUMED, NOT DECIDED: every child process terminates or dies; Manager().Queue delivers what was put before the putter exited; display code does not block; only the safety core (no stuck state, measure, exit, dead workers are failed and freed) is proved',
+                             'A-acyclic: dependencies are structurally nested (no cycles)'],
+                design_ref='7/C11'),
+    'C16': dict(functions=[f'{PE}._start_processes', f'{PE}.submit', f'{PE}.wait', f'{SP}._submit_task', f'{SR}.wait'],
+                lemmas=[], replay='replay.c16',
+                assumptions=['TRUSTED: what fork and spawn mean (inherit memory vs fresh interpreter) is the semantics of multiprocessing; the obligation is that processes are created from the backend\'s own context object',
+                             'multiprocessing.Process is the DEFAULT context\'s Process class; BaseContext.Process starts with that context\'s start method (assumed contracts)'],
+                not_covered=['the fork child-side function _fork_subprocess_func / _subprocess_func (context filtering in the forked child) is not yet under contract'],
+                design_ref='7/C16'),
+    'C17': dict(functions=[f'{TS}.complete_task', f'{TS}.start_task', f'{TS}.get_ready_tasks', f'{TC}.run', f'{LAB}.run_tasks',
+                           f'{SR}.remove_results', f'{PR}.remove_results', f'{SR}.wait', f'{PR}.wait'],
+                lemmas=[], replay='replay.c17', standin='replay.explore',
+                assumptions=['sets iterate in an arbitrary order (every order is covered by the ghost `done` encoding)', A_PROC],
+                design_ref='7/C17'),
 }
